@@ -1,6 +1,6 @@
 SPECIFICATION PSpec
 CONSTANTS
-  RunTypes = {"r_arg_base", "r_nzl_nw", "r_dji_res", "r_wor", "r_bad", "r_alb_kf", "r_arg_kf", "r_arg_herd", "r_arg_own48", "r_dji_capoff"}
+  RunTypes = {"r_arg_base", "r_nzl_base", "r_dji_res", "r_wor", "r_bad", "r_alb_kf", "r_arg_kf", "r_arg_herd", "r_arg_own48", "r_dji_capoff"}
   Failing = {"r_bad"}
   Patched = {"r_alb_kf"}
   Overriding = {"r_arg_herd"}
